@@ -19,7 +19,9 @@ import (
 	"math"
 	"os"
 	"path/filepath"
+	"runtime"
 	"sort"
+	"strconv"
 	"strings"
 	"sync"
 
@@ -96,9 +98,11 @@ type image struct {
 
 type recorder struct {
 	mu       sync.Mutex
+	opMu     reMutex // held from Before to After of every mutation under root (re-entrant: the VFS nests calls)
 	root     string
 	imgRoot  string
 	on       bool
+	imaging  bool // take crash images (bookkeeping of the durable state always runs while `on`)
 	n        int
 	idxSkip  int
 	acked    int
@@ -120,6 +124,52 @@ type recorder struct {
 	paused, resume    chan struct{}
 	r                 *hx.Rng
 	tornPct           int
+}
+
+// reMutex is a mutex that the goroutine holding it may take again (fileops' local VFS
+// implements some calls through other hooked calls, e.g. CreateV2 -> Create).
+type reMutex struct {
+	mu    sync.Mutex
+	cond  *sync.Cond
+	owner int64
+	depth int
+}
+
+func goid() int64 {
+	var buf [64]byte
+	n := runtime.Stack(buf[:], false)
+	// "goroutine 123 [running]:"
+	f := strings.Fields(string(buf[:n]))
+	if len(f) < 2 {
+		return -1
+	}
+	id, _ := strconv.ParseInt(f[1], 10, 64)
+	return id
+}
+
+func (m *reMutex) Lock() {
+	g := goid()
+	m.mu.Lock()
+	if m.cond == nil {
+		m.cond = sync.NewCond(&m.mu)
+	}
+	for m.depth > 0 && m.owner != g {
+		m.cond.Wait()
+	}
+	m.owner = g
+	m.depth++
+	m.mu.Unlock()
+}
+
+func (m *reMutex) Unlock() {
+	m.mu.Lock()
+	if m.depth > 0 {
+		m.depth--
+		if m.depth == 0 && m.cond != nil {
+			m.cond.Broadcast()
+		}
+	}
+	m.mu.Unlock()
 }
 
 func copyTree(src, dst string) error {
@@ -336,7 +386,11 @@ func (rc *recorder) durable(dir string, tornID int) (string, string) {
 // Before lets the history pause a flush right before one of its data-file / WAL-removal
 // mutations, so that writes can be interleaved with the flush deterministically.
 func (rc *recorder) Before(op, p, p2 string, n int64) {
-	if !rc.on || !strings.HasPrefix(p, rc.root) {
+	if !strings.HasPrefix(p, rc.root) {
+		return
+	}
+	if !rc.on {
+		rc.opMu.Lock()
 		return
 	}
 	rel := strings.TrimPrefix(strings.TrimPrefix(p, rc.root), "/")
@@ -355,10 +409,20 @@ func (rc *recorder) Before(op, p, p2 string, n int64) {
 		rc.paused <- struct{}{}
 		<-rc.resume
 	}
+	// From here until After returns no other mutation (and no image of another goroutine's
+	// mutation) may interleave: otherwise an image could show a file change whose bookkeeping
+	// (which batch a WAL record belongs to) has not been done yet.
+	rc.opMu.Lock()
 }
 
 func (rc *recorder) After(op, p, p2 string, n int64, err error) {
-	if !rc.on || err != nil || !strings.HasPrefix(p, rc.root) {
+	if !strings.HasPrefix(p, rc.root) {
+		return
+	}
+	if op != "sync" { // the hook reports a sync only after the fact
+		defer rc.opMu.Unlock()
+	}
+	if !rc.on || err != nil {
 		return
 	}
 	rel := strings.TrimPrefix(strings.TrimPrefix(p, rc.root), "/")
@@ -381,6 +445,9 @@ func (rc *recorder) After(op, p, p2 string, n int64, err error) {
 	if isData && op == "rename" {
 		rel2 := strings.TrimPrefix(strings.TrimPrefix(p2, rc.root), "/")
 		rc.genOf[rel2] = rc.flushNo
+	}
+	if !rc.imaging {
+		return
 	}
 	if !isWal && !isData {
 		rc.idxSkip++
@@ -503,6 +570,7 @@ func runHistory(c *hx.Ctx, r *hx.Rng, idx int, workers int) error {
 		return err
 	}
 	sh.DisableBackground()
+	sh.StopIndexBackground()
 	c.Emit(fmt.Sprintf("open %d", idx), "ok")
 	c.Emit(fmt.Sprintf("parts %d", nParts), "ok")
 	c.Count(fmt.Sprintf("wal-partitions=%d", nParts))
@@ -514,8 +582,25 @@ func runHistory(c *hx.Ctx, r *hx.Rng, idx int, workers int) error {
 	seen := map[key]bool{}
 	flushedTo := 0
 
+	// A third of the histories first age the shard (see below).
+	warm := 0
+	if r.Chance(35) {
+		warm = 7 + r.Intn(3) // the imaged part then crosses the 9.wal -> 10.wal boundary
+		c.Count("history:aged-wal-sequence")
+	}
+
 	doWrite := func(i int) error {
 		rows := genBatch(r, hiWater)
+		if warm > 0 && len(batches) > 0 && r.Chance(60) {
+			// overwrite a key of the previous batch: the order of replay then matters
+			prev := batches[len(batches)-1]
+			src := prev[r.Intn(len(prev))]
+			rows[0].Series, rows[0].T = src.Series, src.T
+			for f := range src.Fields {
+				rows[0].Fields[f] = fmt.Sprintf("%s", map[string]string{"fi": fmt.Sprint(r.Intn(1000)), "ff": fmt.Sprintf("%016x", math.Float64bits(float64(r.Intn(64))/8)), "fb": fmt.Sprint(r.Intn(2)), "fs": fmt.Sprintf("v%d", r.Intn(50))}[f])
+				break
+			}
+		}
 		var ts []string
 		for _, x := range rows {
 			ts = append(ts, x.Text())
@@ -551,8 +636,19 @@ func runHistory(c *hx.Ctx, r *hx.Rng, idx int, workers int) error {
 	}
 
 	rc.on = true
+	// A quarter of the histories first age the shard: 8-11 write+flush rounds without crash images,
+	// so that the WAL file sequence numbers of a partition grow past 9 (two-digit names) before
+	// the part of the history that is imaged.
+	nOps += 2 * warm
 	for i := 0; i < nOps; i++ {
-		if r.Chance(72) {
+		rc.mu.Lock()
+		rc.imaging = i >= 2*warm
+		rc.mu.Unlock()
+		isWrite := r.Chance(72)
+		if i < 2*warm {
+			isWrite = i%2 == 0
+		}
+		if isWrite {
 			if err := doWrite(i); err != nil {
 				return err
 			}
@@ -563,7 +659,7 @@ func runHistory(c *hx.Ctx, r *hx.Rng, idx int, workers int) error {
 		rc.histOps++
 		rc.genLo[rc.flushNo] = flushedTo
 		rc.genHi[rc.flushNo] = len(batches)
-		interleave := r.Chance(45) && len(batches) > flushedTo
+		interleave := (r.Chance(45) || (warm > 0 && r.Chance(80))) && len(batches) > flushedTo && i >= 2*warm
 		flushedTo = len(batches)
 		rc.phase = fmt.Sprintf("history %d op %d flush #%d (%s)", idx, i, rc.flushNo, kinds)
 		if interleave {
@@ -635,6 +731,10 @@ func runHistory(c *hx.Ctx, r *hx.Rng, idx int, workers int) error {
 			ansLine += " window" // the durable state is outside the model's exactness condition
 		}
 		line := c.Emit(img.opLine, ansLine)
+		if df, e := os.OpenFile(filepath.Join(c.Out, "descs.txt"), os.O_CREATE|os.O_APPEND|os.O_WRONLY, 0o644); e == nil {
+			fmt.Fprintf(df, "%d\t%s\n", line, img.desc)
+			df.Close()
+		}
 		ok := answers[i] == specOf(batches, img.acked)
 		if !ok && img.inflight >= 0 && !img.torn {
 			ok = answers[i] == specOf(batches, img.inflight+1)
